@@ -155,6 +155,9 @@ def crosscheck_tables():
     return diffs
 
 
+TIMEOUTS_TOTAL = 0
+
+
 def nlh(cmd, lines, profile="release", timeout=600, tag="cases"):
     """Runs the harness on the given case lines; returns one observation per line.
     A crash of the harness process (abort, native stack overflow) is turned into a CRASH
@@ -165,7 +168,12 @@ def nlh(cmd, lines, profile="release", timeout=600, tag="cases"):
     start = 0
     lines = list(lines)
     timeouts = 0
+    global TIMEOUTS_TOTAL
     while start < len(lines):
+        if TIMEOUTS_TOTAL >= 8:
+            # this build hangs wherever it is asked: the check has its alarm, do not wait for the rest
+            out.extend(["TIMEOUT-SKIPPED"] * (len(lines) - start))
+            break
         if timeouts >= 4:
             # a build that hangs again and again: do not wait for every remaining case
             out.extend(["TIMEOUT-SKIPPED"] * (len(lines) - start))
@@ -174,7 +182,7 @@ def nlh(cmd, lines, profile="release", timeout=600, tag="cases"):
         with open(path, "w") as f:
             f.write("\n".join(lines[start:]) + "\n")
         try:
-            p = subprocess.run(["prlimit", "--as=4294967296", exe, cmd, path], stdout=subprocess.PIPE, stderr=subprocess.PIPE, timeout=(timeout if timeouts == 0 else min(timeout, 60)), text=True, errors="replace")
+            p = subprocess.run(["prlimit", "--as=4294967296", exe, cmd, path], stdout=subprocess.PIPE, stderr=subprocess.PIPE, timeout=(timeout if (timeouts == 0 and TIMEOUTS_TOTAL < 2) else min(timeout, 60)), text=True, errors="replace")
             got = p.stdout.split("\n")
             if got and got[-1] == "":
                 got.pop()
@@ -188,6 +196,7 @@ def nlh(cmd, lines, profile="release", timeout=600, tag="cases"):
             # the last line may be partial
             status = "TIMEOUT"
             timeouts += 1
+            TIMEOUTS_TOTAL += 1
         os.unlink(path)
         need = len(lines) - start
         if len(got) >= need:
